@@ -5,6 +5,7 @@ import Ach.Generated.Topics
 
 * `segment_partition` — the entries of the credit file and of the debit file together are a permutation of the input's;
 * `segment_directions` — the credit file holds only credit entries, the debit file only debit entries;
+* `segment_totals` — for any class of entries the totals of the two outputs add up to the input's;
 * `segment_lists_disjoint` (F) — no code is in both case lists of `segmentFileBatchAddEntry`, and every standard entry code
   is in one of them (otherwise entries of mixed batches would be duplicated or silently dropped);
 * `segment_numbers_ok_iff` — the exact condition under which the numbering of the two outputs validates, in terms of the
@@ -98,6 +99,38 @@ theorem segment_partition : ∀ (bs : List SBatch), (∀ b ∈ bs, Consistent b)
       rw [← List.append_assoc, ← List.append_assoc]
       exact List.Perm.append_right _ List.perm_append_comm
     exact hperm.trans (List.Perm.append h1 ih)
+
+/-! ### totals -/
+
+def amountSum (p : SEntry → Bool) (es : List SEntry) : Int := ((es.filter p).map (·.amount)).sum
+
+theorem total_eq_amountSum (p : SEntry → Bool) (es : List SEntry) : total p es = amountSum p es := by
+  unfold total amountSum
+  generalize es.filter p = l
+  have : ∀ (l : List SEntry) (a : Int), l.foldl (fun acc e => acc + e.amount) a = a + (l.map (·.amount)).sum := by
+    intro l
+    induction l with
+    | nil => intro a; simp
+    | cons x xs ih => intro a; simp only [List.foldl_cons, ih, List.map_cons, List.sum_cons]; omega
+  rw [this]; omega
+
+theorem amountSum_perm (p : SEntry → Bool) {a b : List SEntry} (h : a.Perm b) : amountSum p a = amountSum p b := by
+  induction h with
+  | nil => rfl
+  | cons x _ ih => unfold amountSum at *; by_cases hx : p x = true <;> simp [List.filter_cons, hx, ih]
+  | swap x y l =>
+    unfold amountSum
+    by_cases hx : p x = true <;> by_cases hy : p y = true <;> simp [List.filter_cons, hx, hy] <;> omega
+  | trans _ _ ih1 ih2 => exact ih1.trans ih2
+
+theorem amountSum_append (p : SEntry → Bool) (a b : List SEntry) : amountSum p (a ++ b) = amountSum p a + amountSum p b := by
+  simp [amountSum, List.filter_append, List.sum_append]
+
+/-- **segment_totals**: for any class of entries (credits, debits, …) the totals of the two outputs add up to the input's -/
+theorem segment_totals (bs : List SBatch) (hc : ∀ b ∈ bs, Consistent b) (p : SEntry → Bool) :
+    total p (allEntries (segment bs).1) + total p (allEntries (segment bs).2) = total p (allEntries bs) := by
+  rw [total_eq_amountSum, total_eq_amountSum, total_eq_amountSum, ← amountSum_append]
+  exact amountSum_perm p (segment_partition bs hc)
 
 theorem segOne_directions (b : SBatch) (hc : Consistent b) :
     (∀ e ∈ allEntries (segOne b).1, isSegCredit e = true) ∧ (∀ e ∈ allEntries (segOne b).2, isSegDebit e = true) := by
